@@ -1,7 +1,10 @@
 package c04
 
 import (
+	"bytes"
 	"fmt"
+	"os"
+	"os/exec"
 
 	"github.com/robertkrimen/otto/parser"
 	"sort"
@@ -671,4 +674,121 @@ func runLexErrors(r *engine.Run) {
 	r.Bound("separators", fmt.Sprint(len(seps)))
 	r.Bound("next_tokens", fmt.Sprint(len(next)))
 	h.finish("lexerrors")
+}
+
+type deepProduction struct {
+	name, pre, mid, post string
+}
+
+// deepProductions: one text shape per recursive production of the grammar
+// (and per iterative chain that builds a deep tree).
+// iterativeChains are parsed by loops: accepting them is fine; every other
+// shape recurses in the parser and must run into its nesting bound.
+var deepProductions = []deepProduction{
+	{"paren", "(", "a", ")"}, {"paren-open", "(", "a", ""}, {"array", "[", "a", "]"}, {"array-open", "[", "", ""}, {"object", "{a:", "1", "}"}, {"object-open", "{a:", "", ""},
+	{"block", "{", "", "}"}, {"block-open", "{", "", ""}, {"not", "!", "a", ""}, {"minus", "- ", "a", ""}, {"typeof", "typeof ", "a", ""}, {"void", "void ", "a", ""}, {"delete", "delete ", "a", ""},
+	{"preinc", "++", "a", ""}, {"new", "new ", "a", ""}, {"new-args", "new ", "a", "()"}, {"new-member", "new a.b(new ", "a", ")"}, {"call-arg", "f(", "a", ")"}, {"call-open", "f(", "", ""},
+	{"index", "a[", "0", "]"}, {"cond-test", "a?", "b", ":c"}, {"cond-alt", "a?b:", "c", ""}, {"assign", "a=", "b", ""}, {"assign-op", "a+=", "b", ""}, {"comma-paren", "(a,", "b", ")"},
+	{"function-expr", "x=function(){", "", "}"}, {"function-decl", "function f(){", "", "}"}, {"function-open", "function f(){", "", ""}, {"getter", "x={get a(){", "", "}}"},
+	{"if", "if(a)", ";", ""}, {"if-else", "if(a);else ", ";", ""}, {"while", "while(a)", ";", ""}, {"for", "for(;;)", ";", ""}, {"forin", "for(a in b)", ";", ""}, {"do", "do ", ";", " while(a);"},
+	{"with", "with(a)", ";", ""}, {"try", "try{", "", "}finally{}"}, {"catch", "try{}catch(e){", "", "}"}, {"switch", "switch(a){case 1:", "", "}"}, {"switch-open", "switch(a){default:", "", ""},
+	{"member-chain", "", "a", ".b"}, {"index-chain", "", "a", "[0]"}, {"call-chain", "", "f", "()"}, {"binary-chain", "a+", "a", ""}, {"logical-chain", "a&&", "a", ""}, {"comma-chain", "a,", "a", ""},
+	{"relational-chain", "a<", "a", ""}, {"in-chain", "a in ", "a", ""}, {"postfix-after", "", "a", "++;a"}, {"var-chain", "var a=", "1", ""}, {"var-list", "var a,", "b", ""},
+	{"regexp-group", "x=/(", "a", ")/"}, {"regexp-group-open", "x=/(", "a", ""}, {"regexp-noncapture", "x=/(?:", "a", ")/"}, {"regexp-class", "x=/[", "a", "]/"}, {"regexp-alt", "x=/a|", "a", "/"},
+	{"string-escapes", "x='\\\\x41", "", "'"}, {"comment-blocks", "/**/", "a", ""}, {"line-comments", "//\n", "a", ""}, {"semicolons", ";", "", ""}, {"braces-close", "}", "", ""}, {"else-chain", "if(a);else if(a)", ";", ""},
+}
+
+var iterativeChains = map[string]bool{"member-chain": true, "index-chain": true, "call-chain": true, "binary-chain": true, "logical-chain": true, "comma-chain": true,
+	"relational-chain": true, "in-chain": true, "postfix-after": true, "var-list": true, "regexp-class": true, "regexp-alt": true, "string-escapes": true, "comment-blocks": true,
+	"line-comments": true, "semicolons": true, "else-chain": false}
+
+const deepN = 100000
+
+func deepText(p deepProduction) string {
+	if p.name == "string-escapes" {
+		return "x='" + strings.Repeat("\\x41", deepN) + "'"
+	}
+	return strings.Repeat(p.pre, deepN) + p.mid + strings.Repeat(p.post, deepN)
+}
+
+// runDeepChild does nothing in an ordinary run. The deep family re-executes
+// this binary with a production's name as key; the child parses the text and
+// reports on stderr. (A fatal stack overflow kills the child, not the worker.)
+func runDeepChild(r *engine.Run) {
+	if r.ReplayKey == "" {
+		return
+	}
+	for _, p := range deepProductions {
+		if p.name != r.ReplayKey {
+			continue
+		}
+		res := guardedParse(deepText(p), 0)
+		switch {
+		case res.panicked:
+			fmt.Fprintf(os.Stderr, "DEEP-RESULT panic %s\n", clip(res.panicVal, 200))
+		case res.err != nil:
+			fmt.Fprintf(os.Stderr, "DEEP-RESULT reject %s\n", clip(res.err.Error(), 200))
+		default:
+			fmt.Fprintf(os.Stderr, "DEEP-RESULT accept\n")
+		}
+	}
+}
+
+// runDeep: every recursive production nested (and every iterative chain
+// extended) 10^5 times. ParseFile must return - a tree or an error list - and
+// must not take the process down; and a production that recurses in the parser
+// must be stopped by the parser's nesting bound (maxNesting), because recursion
+// that the bound does not see grows the stack with the input until the Go
+// runtime kills the process (`new ` x 8*10^6 is a fatal stack overflow).
+// Each text is parsed in a child process.
+func runDeep(r *engine.Run) {
+	self, err := os.Executable()
+	if err != nil {
+		r.HarnessError("os.Executable: " + err.Error())
+		return
+	}
+	for _, p := range deepProductions {
+		key := "deep/" + p.name
+		if !mine(r, key) {
+			continue
+		}
+		r.Begin(key)
+		cmd := exec.Command(self, "worker", r.Property, "--tier", "quick", "--family", "deepchild", "--key", p.name)
+		cmd.Env = append(os.Environ(), "GOTRACEBACK=none")
+		var stderr bytes.Buffer
+		cmd.Stderr = &stderr
+		cmd.Stdout = nil
+		runErr := cmd.Run()
+		r.End()
+		out := stderr.String()
+		obs := ""
+		if i := strings.Index(out, "DEEP-RESULT "); i >= 0 {
+			obs = strings.TrimSpace(strings.SplitN(out[i+len("DEEP-RESULT "):], "\n", 2)[0])
+		}
+		r.Eval(true)
+		r.Tree(1, 1)
+		switch {
+		case strings.HasPrefix(obs, "accept") && !iterativeChains[p.name]:
+			r.Outcome(p.name + ": " + obs)
+			r.Mismatch(engine.Mismatch{Key: key + "#bound", Input: fmt.Sprintf("%q x %d + %q + %q x %d", p.pre, deepN, p.mid, p.post, deepN),
+				Expected: "reject (nesting bound)", Observed: "accept: recursion not covered by the nesting bound", Aux: map[string]string{"production": p.name}})
+		case strings.HasPrefix(obs, "accept"), strings.HasPrefix(obs, "reject"):
+			r.Outcome(p.name + ": " + obs)
+			if r.WantSample() {
+				r.Sample(fmt.Sprintf("%s x 10^5 (%q ... %q ... %q) => %s", p.name, p.pre, p.mid, p.post, clip(obs, 120)))
+			}
+		default:
+			what := "child process died"
+			if strings.Contains(out, "stack overflow") || strings.Contains(out, "stack exceeds") {
+				what = "fatal error: stack overflow"
+			} else if obs != "" {
+				what = obs
+			}
+			r.Outcome(p.name + ": " + what)
+			r.Mismatch(engine.Mismatch{Key: key + "#total", Input: fmt.Sprintf("%q x %d + %q + %q x %d", p.pre, deepN, p.mid, p.post, deepN),
+				Expected: "ParseFile returns", Observed: what, Note: fmt.Sprintf("%v; %s", runErr, clip(out, 400)), Aux: map[string]string{"production": p.name}})
+		}
+	}
+	r.Bound("depth", fmt.Sprint(deepN))
+	r.Bound("productions", fmt.Sprint(len(deepProductions)))
 }
